@@ -4,7 +4,7 @@ from lib.coqterm import cbool, cbytes, clist, copt, hx, unhx
 
 ID = "C29"
 QUICK_N = 3600
-THOROUGH_N = 60000
+THOROUGH_N = 24000
 SHARD = 300
 RULE = ("schedules for a real TCPLayer/UDPLayer (flow or ignore mode, server pre-connected or opened by the layer, "
         "connect success/failure): Start, then <= 22 events mixing DataReceived / ConnectionClosed for either peer, "
